@@ -41,6 +41,13 @@ ENUM_TESTS["connect_failed_frame"] = {
   "what": "handle_connect_failed_event on a real SocketCore: every other endpoint's retry state is untouched, no entry dropped or invented, the failed endpoint's own retry armed iff the failure is retryable",
 }
 
+ENUM_TESTS["trie_histories"] = {
+  "file": "enum/trie_histories.rs", "props": ["C12"], "pairs_fn": ["SubscriptionTrie::subscribe", "SubscriptionTrie::unsubscribe", "SubscriptionTrie::matches"], "unit": "trie",
+  "append_to": "core/src/socket/patterns/trie.rs", "test_filter": "verif_enum_trie_histories",
+  "bound": "every history of <= 4 subscribe/unsubscribe calls over the 7 topics of length <= 2 over {a, b} (41371 histories), all 15 message topics of length <= 3 probed after every step",
+  "what": "the real SubscriptionTrie against the reference semantics of the property text (prefix match on positive counts, N subscribes need N unsubscribes, unsubscribe of the unknown changes nothing, return value = count reached zero)",
+}
+
 WITNESS_TESTS = {
   "c01_order_mixed_sizes": {
     "file": "witness/c01_order_mixed_sizes.rs", "props": ["C01"],
@@ -423,7 +430,7 @@ PROPS["C09"] = {
 
 PROPS["C12"] = {
   "units": ["trie", "subfilter"],
-  "kani_quick": [], "kani_thorough": [],
+  "kani_quick": [], "kani_thorough": [], "enum_fallback": ["trie_histories"],
   "claim": "Matcher semantics only, proved for every topic, every subscription set and every history of subscribe/unsubscribe calls (representation invariant of the abstract view) on the verbatim SubscriptionTrie::{matches, subscribe, unsubscribe}: "
            "against the view cnt(p) = number of active subscriptions to exactly the byte string p, matches(t) is true iff some p with cnt(p) > 0 is a byte-prefix of t (the empty subscription is the prefix of length 0); "
            "subscribe(t) adds one to exactly cnt(t); unsubscribe(t) removes one iff cnt(t) > 0 (and reports whether that was the last one), and an unsubscribe of something never subscribed changes nothing "
